@@ -33,7 +33,9 @@ const wfRule = "generated: (a) every goto-built CFG with n labelled blocks (each
 	"thorough n<=3 complete (defer variants of n=3 with at most one escaping block), n=4 with unordered target pairs and (no escape | p = &x in the third block); " +
 	"(b) every structured program construct (30: range over int/slice/string/map/chan/array/func, nested range-over-func with defer, defer/recover with named results, closures over loop " +
 	"variables, generics across packages, type switch, select, labelled break/continue, switch/fallthrough, short-circuit, comma-ok forms, conversions, method values/wrappers/thunks, go/defer, " +
-	"builtins, composite literals, split allocs in branches, trivial phis, goto loops) x operand shape (4) x skeleton (4) x language version (1.21, 1.26); every generated program is built as a " +
+	"builtins, composite literals, split allocs in branches, trivial phis, goto loops) x operand shape (4) x skeleton (4) x language version (1.21, 1.26); (c) three small families, complete over their dimensions: dead/overwritten stores " +
+	"(2 initialisations x chains of 1..3 ifs with 5 conditional-store forms each x 4 endings), locals that become splittable only in lift round >= 2 in or behind a join block headed by 0..3 phis " +
+	"(4 access paths x 4 x 2), go1.22 three-clause loops with 1..3 loop variables, 0..n of them captured, 3 exits, 3 places where a local escapes; every generated program is built as a " +
 	"multi-package program with Program.Build under all 16 combinations of {NaiveForm, GlobalDebug, InstantiateGenerics, BuildSerially}. corpora: every package of `go list std`, of " +
 	"honnef.co/go/tools/... (with test variants) and of the */testdata/go1.N modules (quick: every 8th module) that type-checks, under 4 (quick: naive/lifted x debug) or 16 (thorough) " +
 	"combinations. One evaluation = one function body (declared, anonymous, wrapper, thunk, bound method, generic instance, init) in one mode, checked by an independent well-formedness " +
